@@ -59,8 +59,13 @@ pub fn build_trie_with(keys: &[(Vec<u8>, u32)], minimal: bool) -> Vec<u32> {
         }
         let mut base = 1usize;
         let mut slot0 = 1usize;
+        // every fourth minimal trie: the root's offset in the extended form (a multiple of 256, bit 9 set)
+        let ext_root = minimal && pos == 0 && keys.len() % 4 == 1;
+        if ext_root {
+            base = 256;
+        }
         loop {
-            if minimal {
+            if minimal && !ext_root {
                 base = slot0 ^ labels[0] as usize;
             }
             let ok = base != 0 && !used_bases.contains(&base) && labels.iter().all(|&l| {
@@ -70,7 +75,7 @@ pub fn build_trie_with(keys: &[(Vec<u8>, u32)], minimal: bool) -> Vec<u32> {
             if ok {
                 break;
             }
-            base += 1;
+            base += if ext_root { 256 } else { 1 };
             slot0 += 1;
         }
         used_bases.insert(base);
@@ -84,7 +89,11 @@ pub fn build_trie_with(keys: &[(Vec<u8>, u32)], minimal: bool) -> Vec<u32> {
             }
             used[slot] = true;
         }
-        units[pos] |= (offset as u32) << 10 | (has_leaf as u32) << 8;
+        if ext_root && offset % 256 == 0 && offset >= 256 {
+            units[pos] |= ((offset >> 8) as u32) << 10 | 1 << 9 | (has_leaf as u32) << 8;
+        } else {
+            units[pos] |= (offset as u32) << 10 | (has_leaf as u32) << 8;
+        }
         if has_leaf {
             units[base] = nodes[n].value.unwrap() | (1 << 31);
         }
